@@ -1,6 +1,6 @@
 import SaModel.Lemmas.C17Untouched
 /-
-C17, `untouched_ok` — the reads that stay on one array depend only on what `reachEq` fixes: the primitive gets,
+C17, `untouched_ok` — the reads that stay on one array depend only on what `touchEqW` fixes: the primitive gets,
 `is_some`, the scalar reads, dictionary lookups, the heads of the list / fixed-size list / map / union reads.
 -/
 namespace SaModel.Props.C17
@@ -10,43 +10,289 @@ theorem validityIsSet_congr {v v' : Option Bits} {i : Nat} (hv : isValid v i = i
     validityIsSet Fixes.all v i = validityIsSet Fixes.all v' i := by
   rw [validityIsSet_all, validityIsSet_all, hv]
 
-theorem primGet_congr {v v' : Option Bits} {vals vals' : List Int} {i : Nat} (hv : isValid v i = isValid v' i)
-    (hx : vals[i]? = vals'[i]?) : primGet Fixes.all v vals i = primGet Fixes.all v' vals' i := by
+theorem primGet_congr {v v' : Option Bits} {vals vals' : List Int} {i : Nat}
+    (h : SlotAgree i vals.length vals'.length v v' (vals[i]? = vals'[i]?)) :
+    primGet Fixes.all v vals i = primGet Fixes.all v' vals' i := by
+  obtain ⟨hl, hc⟩ := h
   unfold primGet
-  rw [hx, validityIsSet_congr hv]
+  by_cases hi : i < vals.length
+  · have hi' : i < vals'.length := hl ▸ hi
+    obtain ⟨hv, hx⟩ := hc hi
+    simp only [List.getElem?_eq_getElem hi, List.getElem?_eq_getElem hi', validityIsSet_all, ← hv]
+    cases hval : isValid v i with
+    | error e => rfl
+    | ok b =>
+      cases b with
+      | false => rfl
+      | true =>
+        have := hx hval
+        simp only [List.getElem?_eq_getElem hi, List.getElem?_eq_getElem hi', Option.some.injEq] at this
+        simp only [this]
+  · have hi' : ¬ i < vals'.length := hl ▸ hi
+    simp only [List.getElem?_eq_none_iff.mpr (Nat.le_of_not_lt hi), List.getElem?_eq_none_iff.mpr (Nat.le_of_not_lt hi')]
 
-theorem codecRead_congr {v v' : Option Bits} {vals vals' : List Int} {i : Nat} (hv : isValid v i = isValid v' i)
-    (hx : vals[i]? = vals'[i]?) : codecRead Fixes.all v vals i = codecRead Fixes.all v' vals' i := by
+theorem codecRead_congr {v v' : Option Bits} {vals vals' : List Int} {i : Nat}
+    (h : SlotAgree i vals.length vals'.length v v' (vals[i]? = vals'[i]?)) :
+    codecRead Fixes.all v vals i = codecRead Fixes.all v' vals' i := by
   unfold codecRead
-  rw [primGet_congr hv hx]
+  rw [primGet_congr h]
 
 theorem nullCheck_congr {len len' i : Nat} (hl : (i < len) = (i < len')) :
     nullCheck Fixes.all len i = nullCheck Fixes.all len' i := by
   unfold nullCheck
-  have : (i ≥ len) = (i ≥ len') := by
-    apply propext
-    have := Eq.to_iff hl
-    omega
-  simp only [this]
+  simp only [ge_of_lt_eq hl]
 
 theorem structItem_congr {len len' i : Nat} (hl : (i < len) = (i < len')) :
     structItem Fixes.all len i = structItem Fixes.all len' i := by
   unfold structItem
-  have : (i ≥ len) = (i ≥ len') := by
-    apply propext
-    have := Eq.to_iff hl
-    omega
-  simp only [this]
+  simp only [ge_of_lt_eq hl]
 
-theorem boolGet_congr {len len' : Nat} {v v' : Option Bits} {vals vals' : Bits} {i : Nat} (hl : (i < len) = (i < len'))
-    (hv : isValid v i = isValid v' i) (hb : getBit vals i = getBit vals' i) :
+theorem boolGet_congr {len len' : Nat} {v v' : Option Bits} {vals vals' : Bits} {i : Nat}
+    (h : SlotAgree i len len' v v' (getBit vals i = getBit vals' i)) :
     boolGet Fixes.all len v vals i = boolGet Fixes.all len' v' vals' i := by
+  obtain ⟨hl, hc⟩ := h
   unfold boolGet
-  have : (i ≥ len) = (i ≥ len') := by
-    apply propext
-    have := Eq.to_iff hl
-    omega
-  simp only [this, validityIsSet_congr hv, getBitBuffer_all, hb]
+  simp only [ge_of_lt_eq hl]
+  by_cases hi : i < len
+  · have hi' : ¬ i ≥ len' := by have : i < len' := hl ▸ hi; omega
+    obtain ⟨hv, hx⟩ := hc hi
+    simp only [hi', if_false, validityIsSet_all, getBitBuffer_all, ← hv]
+    cases hval : isValid v i with
+    | error e => rfl
+    | ok b =>
+      cases b with
+      | false => rfl
+      | true => simp only [hx hval]
+  · have hi' : i ≥ len' := by have : ¬ i < len' := hl ▸ hi; omega
+    simp only [hi', if_true]
+
+/-! ### string / binary columns -/
+
+/-- `BytesView::get` after the validity test: the two offsets, then the slice -/
+def bytesTail (data : Bytes) (s e : Int) : R (Option Bytes) := do
+  let start ← tryIntoUsize s
+  let stop ← tryIntoUsize e
+  if start ≤ stop ∧ stop ≤ data.length then pure (some ((data.drop start).take (stop - start)))
+  else fail "Invalid offsets"
+
+theorem bytesTail_slice (data : Bytes) (s e : Int) :
+    bytesTail data s e =
+      if s < 0 ∨ e < 0 then fail "out of range integral type conversion attempted"
+      else match byteSlice data s e with
+        | some b => .ok (some b)
+        | none => fail "Invalid offsets" := by
+  unfold bytesTail tryIntoUsize byteSlice
+  by_cases hs : 0 ≤ s
+  · by_cases he : 0 ≤ e
+    · have hn : ¬ (s < 0 ∨ e < 0) := by omega
+      have hiff : (s.toNat ≤ e.toNat ∧ e.toNat ≤ data.length) ↔ (0 ≤ s ∧ s ≤ e ∧ e ≤ (data.length : Int)) := by omega
+      rw [if_pos hs, if_pos he, if_neg hn]
+      simp only [bind, Except.bind]
+      by_cases hc : 0 ≤ s ∧ s ≤ e ∧ e ≤ (data.length : Int)
+      · rw [if_pos hc, if_pos (hiff.mpr hc)]; rfl
+      · rw [if_neg hc, if_neg (fun h => hc (hiff.mp h))]
+    · have hn : s < 0 ∨ e < 0 := by omega
+      rw [if_pos hs, if_neg he, if_pos hn]; rfl
+  · have hn : s < 0 ∨ e < 0 := by omega
+    rw [if_neg hs, if_pos hn]; rfl
+
+/-- `BytesView::get` after the validity test -/
+def bytesOffs (offs : List Int) (data : Bytes) (i : Nat) : R (Option Bytes) :=
+  match offs[i]?, offs[i + 1]? with
+  | some s, some e => bytesTail data s e
+  | _, _ => panic "BytesView::get: offsets[idx + 1]"
+
+theorem bytesGet_tail (v : Option Bits) (offs : List Int) (data : Bytes) (i : Nat) :
+    bytesGet Fixes.all v offs data i =
+      if i + 1 ≥ offs.length then fail "Invalid access: tried to get element of array"
+      else (validityIsSet Fixes.all v i >>= fun b => if b then bytesOffs offs data i else pure none) := by
+  unfold bytesGet bytesOffs bytesTail
+  simp only [show Fixes.all.bytesGet = true from rfl, if_true]
+  rfl
+
+theorem bytesGet_congr {v v' : Option Bits} {offs offs' : List Int} {data data' : Bytes} {i : Nat}
+    (h : SlotAgree i (offs.length - 1) (offs'.length - 1) v v'
+      (offs[i]? = offs'[i]? ∧ offs[i + 1]? = offs'[i + 1]? ∧
+        byteSlice data (offs.getD i 0) (offs.getD (i + 1) 0) = byteSlice data' (offs.getD i 0) (offs.getD (i + 1) 0))) :
+    bytesGet Fixes.all v offs data i = bytesGet Fixes.all v' offs' data' i := by
+  obtain ⟨hl, hc⟩ := h
+  rw [bytesGet_tail, bytesGet_tail]
+  by_cases hi : i < offs.length - 1
+  · have hi' : i < offs'.length - 1 := hl ▸ hi
+    have g : ¬ i + 1 ≥ offs.length := by omega
+    have g' : ¬ i + 1 ≥ offs'.length := by omega
+    obtain ⟨hv, hx⟩ := hc hi
+    simp only [g, g', if_false, validityIsSet_all, ← hv]
+    cases hval : isValid v i with
+    | error e => rfl
+    | ok b =>
+      cases b with
+      | false => rfl
+      | true =>
+        obtain ⟨h0, h1, hsl⟩ := hx hval
+        have k0 : i < offs.length := by omega
+        have k1 : i + 1 < offs.length := by omega
+        have e0 : offs[i]? = some offs[i] := List.getElem?_eq_getElem k0
+        have e1 : offs[i + 1]? = some offs[i + 1] := List.getElem?_eq_getElem k1
+        rw [getD_of_getElem? e0, getD_of_getElem? e1] at hsl
+        unfold bytesOffs
+        rw [← h0, ← h1, e0, e1]
+        simp only [bytesTail_slice, hsl]
+  · have hi' : ¬ i < offs'.length - 1 := hl ▸ hi
+    have g : i + 1 ≥ offs.length := by omega
+    have g' : i + 1 ≥ offs'.length := by omega
+    simp only [g, g', if_true]
+
+theorem bytesColGet_congr {ty : BytesTy} {v v' : Option Bits} {offs offs' : List Int} {data data' : Bytes} {i : Nat}
+    (h : SlotAgree i (offs.length - 1) (offs'.length - 1) v v'
+      (offs[i]? = offs'[i]? ∧ offs[i + 1]? = offs'[i + 1]? ∧
+        byteSlice data (offs.getD i 0) (offs.getD (i + 1) 0) = byteSlice data' (offs.getD i 0) (offs.getD (i + 1) 0))) :
+    bytesColGet Fixes.all ty v offs data i = bytesColGet Fixes.all ty v' offs' data' i := by
+  unfold bytesColGet
+  rw [bytesGet_congr h]
+
+theorem viewBytes_slice (buffers : List Bytes) (desc : Nat) :
+    viewBytes buffers desc =
+      match viewSlice buffers desc with
+      | some b => .ok b
+      | none => fail "invalid state in bytes deserialization" := by
+  unfold viewBytes viewSlice decodeView
+  simp only
+  split
+  · rfl
+  · split
+    · rename_i h; simp only [h]; rfl
+    · rename_i buf h
+      simp only [h]
+      split <;> rfl
+
+theorem viewGet_congr {v v' : Option Bits} {views views' : List Nat} {buffers buffers' : List Bytes} {i : Nat}
+    (h : SlotAgree i views.length views'.length v v'
+      (views[i]? = views'[i]? ∧ viewSlice buffers (views.getD i 0) = viewSlice buffers' (views.getD i 0))) :
+    viewGet Fixes.all v views buffers i = viewGet Fixes.all v' views' buffers' i := by
+  obtain ⟨hl, hc⟩ := h
+  unfold viewGet
+  by_cases hi : i < views.length
+  · have hi' : i < views'.length := hl ▸ hi
+    obtain ⟨hv, hx⟩ := hc hi
+    simp only [List.getElem?_eq_getElem hi, List.getElem?_eq_getElem hi', validityIsSet_all, ← hv]
+    cases hval : isValid v i with
+    | error e => rfl
+    | ok b =>
+      cases b with
+      | false => rfl
+      | true =>
+        obtain ⟨h0, hsl⟩ := hx hval
+        have hd : views.getD i 0 = views[i] := by simp [List.getD, List.getElem?_eq_getElem hi]
+        simp only [List.getElem?_eq_getElem hi, List.getElem?_eq_getElem hi', Option.some.injEq] at h0
+        rw [hd] at hsl
+        simp only [← h0, viewBytes_slice, hsl]
+  · have hi' : ¬ i < views'.length := hl ▸ hi
+    simp only [List.getElem?_eq_none_iff.mpr (Nat.le_of_not_lt hi), List.getElem?_eq_none_iff.mpr (Nat.le_of_not_lt hi')]
+
+theorem viewColGet_congr {ty : ViewTy} {v v' : Option Bits} {views views' : List Nat} {buffers buffers' : List Bytes} {i : Nat}
+    (h : SlotAgree i views.length views'.length v v'
+      (views[i]? = views'[i]? ∧ viewSlice buffers (views.getD i 0) = viewSlice buffers' (views.getD i 0))) :
+    viewColGet Fixes.all ty v views buffers i = viewColGet Fixes.all ty v' views' buffers' i := by
+  unfold viewColGet
+  rw [viewGet_congr h]
+
+/-! ### fixed-size binary columns -/
+
+theorem fsbNew_len (n : Int) (data : Bytes) :
+    fsbNew Fixes.all n data =
+      match fsbLen n data with
+      | some len => .ok (n.toNat, len)
+      | none =>
+        if n < 0 then fail "out of range integral type conversion attempted"
+        else fail "Invalid FixedSizeBinary array: not evenly divisible" := by
+  unfold fsbNew fsbLen
+  simp only [show Fixes.all.fsbZero = true from rfl, if_true]
+  by_cases h0 : n < 0
+  · simp only [h0, if_true]
+  · simp only [h0, if_false]
+    by_cases h1 : n.toNat = 0
+    · simp only [h1, if_true]
+      by_cases h2 : data.length = 0
+      · simp only [h2, if_true]
+      · simp only [h2, if_false]
+    · simp only [h1, if_false]
+      by_cases h2 : data.length % n.toNat = 0
+      · simp only [h2, if_true]
+        simp
+      · simp only [h2, if_false]
+        simp [h2]
+
+
+
+theorem fsbLen_mul {n : Int} {data : Bytes} {len : Nat} (h : fsbLen n data = some len) : len * n.toNat ≤ data.length := by
+  unfold fsbLen at h
+  split at h
+  · cases h
+  · split at h
+    · rename_i h1
+      split at h
+      · cases h; simp
+      · cases h
+    · split at h
+      · cases h
+        exact Nat.div_mul_le_self _ _
+      · cases h
+
+theorem fsbGet_congr {n len len' : Nat} {v v' : Option Bits} {data data' : Bytes} {i : Nat}
+    (hm : len * n ≤ data.length) (hm' : len' * n ≤ data'.length)
+    (h : SlotAgree i len len' v v' ((data.drop (i * n)).take n = (data'.drop (i * n)).take n)) :
+    fsbGet Fixes.all n len v data i = fsbGet Fixes.all n len' v' data' i := by
+  obtain ⟨hl, hc⟩ := h
+  unfold fsbGet
+  simp only [ge_of_lt_eq hl]
+  by_cases hi : i < len
+  · have hi2 : i < len' := hl ▸ hi
+    have hi' : ¬ i ≥ len' := by omega
+    obtain ⟨hv, hx⟩ := hc hi
+    have b1 : (i + 1) * n ≤ data.length := Nat.le_trans (Nat.mul_le_mul_right n (by omega)) hm
+    have b2 : (i + 1) * n ≤ data'.length := Nat.le_trans (Nat.mul_le_mul_right n (by omega)) hm'
+    simp only [hi', if_false, validityIsSet_all, ← hv, b1, b2, if_true]
+    cases hval : isValid v i with
+    | error e => rfl
+    | ok b =>
+      cases b with
+      | false => rfl
+      | true => simp only [hx hval]
+  · have hi' : i ≥ len' := by have : ¬ i < len' := hl ▸ hi; omega
+    simp only [hi', if_true]
+
+theorem fsbColGet_congr {n : Int} {v v' : Option Bits} {data data' : Bytes} {i : Nat} (h : FsbAgree n v v' data data' i) :
+    fsbColGet Fixes.all n v data i = fsbColGet Fixes.all n v' data' i := by
+  unfold fsbColGet
+  rw [fsbNew_len, fsbNew_len]
+  rcases h with ⟨h1, h2⟩ | ⟨len, len', h1, h2, hs⟩
+  · simp only [h1, h2]
+    by_cases hn : n < 0 <;> simp only [hn, if_true, if_false] <;> rfl
+  · simp only [h1, h2, bind, Except.bind]
+    exact fsbGet_congr (fsbLen_mul h1) (fsbLen_mul h2) hs
+
+/-! ### the heads of the container reads -/
+
+theorem listRange_congr {offs offs' : List Int} {i : Nat} (hl : (i < offs.length - 1) = (i < offs'.length - 1))
+    (h : i < offs.length - 1 → offs[i]? = offs'[i]? ∧ offs[i + 1]? = offs'[i + 1]?) :
+    listRange Fixes.all offs i = listRange Fixes.all offs' i := by
+  unfold listRange
+  by_cases hi : i < offs.length - 1
+  · have hi' : i < offs'.length - 1 := hl ▸ hi
+    have g : ¬ i + 1 ≥ offs.length := by omega
+    have g' : ¬ i + 1 ≥ offs'.length := by omega
+    obtain ⟨h0, h1⟩ := h hi
+    simp only [g, g', if_false, h0, h1]
+  · have hi' : ¬ i < offs'.length - 1 := hl ▸ hi
+    have g : i + 1 ≥ offs.length := by omega
+    have g' : i + 1 ≥ offs'.length := by omega
+    simp only [g, g', if_true]
+
+theorem fslRange_congr {len len' : Nat} {n : Int} {i : Nat} (hl : (i < len) = (i < len')) :
+    fslRange Fixes.all len n i = fslRange Fixes.all len' n i := by
+  unfold fslRange
+  simp only [ge_of_lt_eq hl]
 
 theorem getElem?_none_congr {α} {l l' : List α} {k : Nat} (h : l[k]? = l'[k]?) : (k ≥ l.length) = (k ≥ l'.length) := by
   apply propext
@@ -59,49 +305,6 @@ theorem getElem?_none_congr {α} {l l' : List α} {k : Nat} (h : l[k]? = l'[k]?)
     have : l'[k]? = none := List.getElem?_eq_none_iff.mpr hk
     rw [← h] at this
     exact List.getElem?_eq_none_iff.mp this
-
-theorem bytesGet_congr {v v' : Option Bits} {offs offs' : List Int} {data : Bytes} {i : Nat} (hv : isValid v i = isValid v' i)
-    (h0 : offs[i]? = offs'[i]?) (h1 : offs[i + 1]? = offs'[i + 1]?) :
-    bytesGet Fixes.all v offs data i = bytesGet Fixes.all v' offs' data i := by
-  unfold bytesGet
-  simp only [show Fixes.all.bytesGet = true from rfl, if_true, getElem?_none_congr h1, validityIsSet_congr hv, h0, h1]
-
-theorem bytesColGet_congr {ty : BytesTy} {v v' : Option Bits} {offs offs' : List Int} {data : Bytes} {i : Nat}
-    (hv : isValid v i = isValid v' i) (h0 : offs[i]? = offs'[i]?) (h1 : offs[i + 1]? = offs'[i + 1]?) :
-    bytesColGet Fixes.all ty v offs data i = bytesColGet Fixes.all ty v' offs' data i := by
-  unfold bytesColGet
-  rw [bytesGet_congr hv h0 h1]
-
-theorem viewGet_congr {v v' : Option Bits} {views views' : List Nat} {buffers : List Bytes} {i : Nat}
-    (hv : isValid v i = isValid v' i) (hx : views[i]? = views'[i]?) :
-    viewGet Fixes.all v views buffers i = viewGet Fixes.all v' views' buffers i := by
-  unfold viewGet
-  rw [hx, validityIsSet_congr hv]
-
-theorem viewColGet_congr {ty : ViewTy} {v v' : Option Bits} {views views' : List Nat} {buffers : List Bytes} {i : Nat}
-    (hv : isValid v i = isValid v' i) (hx : views[i]? = views'[i]?) :
-    viewColGet Fixes.all ty v views buffers i = viewColGet Fixes.all ty v' views' buffers i := by
-  unfold viewColGet
-  rw [viewGet_congr hv hx]
-
-theorem fsbColGet_congr {n : Int} {v v' : Option Bits} {data : Bytes} {i : Nat} (hv : isValid v i = isValid v' i) :
-    fsbColGet Fixes.all n v data i = fsbColGet Fixes.all n v' data i := by
-  unfold fsbColGet fsbGet
-  simp only [validityIsSet_congr hv]
-
-theorem listRange_congr {offs offs' : List Int} {i : Nat} (h0 : offs[i]? = offs'[i]?) (h1 : offs[i + 1]? = offs'[i + 1]?) :
-    listRange Fixes.all offs i = listRange Fixes.all offs' i := by
-  unfold listRange
-  simp only [getElem?_none_congr h1, h0, h1]
-
-theorem fslRange_congr {len len' : Nat} {n : Int} {i : Nat} (hl : (i < len) = (i < len')) :
-    fslRange Fixes.all len n i = fslRange Fixes.all len' n i := by
-  unfold fslRange
-  have : (i ≥ len) = (i ≥ len') := by
-    apply propext
-    have := Eq.to_iff hl
-    omega
-  simp only [this]
 
 theorem unionSelect_congr {types types' : List Int} {offs offs' : Option (List Int)} {n i : Nat}
     (h : unionHead types offs i = unionHead types' offs' i) :
@@ -125,78 +328,169 @@ theorem unionSelect_congr {types types' : List Int} {offs offs' : Option (List I
         apply propext; have := ho.1; omega
       simp only [hne, ht, ho.2]
 
-/-! ### `is_some`, scalar reads, dictionary lookups -/
+/-! ### `is_some`, the `Option` layer -/
 
-theorem isSome_agree {a a' : Arr} {i : Nat} (h : reachEq a a' i = true) : isSome Fixes.all a i = isSome Fixes.all a' i := by
+theorem isSome_agree {p : Target} {a a' : Arr} {i : Nat} (h : touchEqW true p a a' i = true) :
+    isSome Fixes.all a i = isSome Fixes.all a' i := by
   cases a with
-  | null len => obtain ⟨len', rfl, hl⟩ := reachEq_null h; simp only [isSome, nullCheck_congr hl]
-  | boolean len v vals =>
-    obtain ⟨len', v', vals', rfl, hl, hv, hb⟩ := reachEq_boolean h; simp only [isSome, boolGet_congr hl hv hb]
-  | prim ty v vals => obtain ⟨v', vals', rfl, hv, hx⟩ := reachEq_prim h; simp only [isSome, primGet_congr hv hx]
-  | time ty u v vals => obtain ⟨v', vals', rfl, hv, hx⟩ := reachEq_time h; simp only [isSome, primGet_congr hv hx]
-  | timestamp u tz v vals => obtain ⟨v', vals', rfl, hv, hx⟩ := reachEq_timestamp h; simp only [isSome, primGet_congr hv hx]
-  | decimal128 p s v vals => obtain ⟨v', vals', rfl, hv, hx⟩ := reachEq_decimal h; simp only [isSome, primGet_congr hv hx]
-  | bytes ty v offs data =>
-    obtain ⟨v', offs', rfl, hv, h0, h1⟩ := reachEq_bytes h; simp only [isSome, bytesColGet_congr hv h0 h1]
+  | null len => obtain ⟨len', rfl, hl⟩ := touchEqW_null h; simp only [isSome, nullCheck_congr hl]
+  | boolean len v vals => obtain ⟨len', v', vals', rfl, hs⟩ := touchEqW_boolean h; simp only [isSome, boolGet_congr hs]
+  | prim ty v vals => obtain ⟨v', vals', rfl, hs⟩ := touchEqW_prim h; simp only [isSome, primGet_congr hs]
+  | time ty u v vals => obtain ⟨v', vals', rfl, hs⟩ := touchEqW_time h; simp only [isSome, primGet_congr hs]
+  | timestamp u tz v vals => obtain ⟨v', vals', rfl, hs⟩ := touchEqW_timestamp h; simp only [isSome, primGet_congr hs]
+  | decimal128 pr s v vals => obtain ⟨v', vals', rfl, hs⟩ := touchEqW_decimal h; simp only [isSome, primGet_congr hs]
+  | bytes ty v offs data => obtain ⟨v', offs', data', rfl, hs⟩ := touchEqW_bytes h; simp only [isSome, bytesColGet_congr hs]
   | bytesView ty v views buffers =>
-    obtain ⟨v', views', rfl, hv, hx⟩ := reachEq_bytesView h; simp only [isSome, viewColGet_congr hv hx]
-  | fixedSizeBinary n v data => obtain ⟨v', rfl, hv⟩ := reachEq_fsb h; simp only [isSome, fsbColGet_congr hv]
+    obtain ⟨v', views', buffers', rfl, hs⟩ := touchEqW_bytesView h; simp only [isSome, viewColGet_congr hs]
+  | fixedSizeBinary n v data => obtain ⟨v', data', rfl, hs⟩ := touchEqW_fsb h; simp only [isSome, fsbColGet_congr hs]
   | struct len v fs =>
-    obtain ⟨len', v', fs', rfl, hl, hv, _⟩ := reachEq_struct h
-    have : (i ≥ len) = (i ≥ len') := by
-      apply propext; have := Eq.to_iff hl; omega
-    simp only [isSome, this, validityIsSet_congr hv]
+    obtain ⟨len', v', fs', rfl, hl, hv, _⟩ := touchEqW_struct h
+    simp only [isSome, ge_of_lt_eq hl]
+    by_cases hi : i < len
+    · rw [validityIsSet_congr (hv rfl hi)]
+    · have : i ≥ len' := by have : ¬ i < len' := hl ▸ hi; omega
+      simp only [this, if_true]
   | list l v offs fm el =>
-    obtain ⟨l', v', offs', fm', el', rfl, hv, _, h1, _⟩ := reachEq_list h
-    simp only [isSome, getElem?_none_congr h1, validityIsSet_congr hv]
+    obtain ⟨l', v', offs', fm', el', rfl, hl, hv, _⟩ := touchEqW_list h
+    simp only [isSome]
+    by_cases hi : i < offs.length - 1
+    · have hi' : i < offs'.length - 1 := hl ▸ hi
+      have g : ¬ i + 1 ≥ offs.length := by omega
+      have g' : ¬ i + 1 ≥ offs'.length := by omega
+      simp only [g, g', if_false, validityIsSet_congr (hv rfl hi)]
+    · have hi' : ¬ i < offs'.length - 1 := hl ▸ hi
+      have g : i + 1 ≥ offs.length := by omega
+      have g' : i + 1 ≥ offs'.length := by omega
+      simp only [g, g', if_true]
   | fixedSizeList len v n fm el =>
-    obtain ⟨len', v', fm', el', rfl, hl, hv, _⟩ := reachEq_fsl h
-    have : (i ≥ len) = (i ≥ len') := by
-      apply propext; have := Eq.to_iff hl; omega
-    simp only [isSome, this, validityIsSet_congr hv]
+    obtain ⟨len', v', fm', el', rfl, hl, hv, _⟩ := touchEqW_fsl h
+    simp only [isSome, ge_of_lt_eq hl]
+    by_cases hi : i < len
+    · rw [validityIsSet_congr (hv rfl hi)]
+    · have : i ≥ len' := by have : ¬ i < len' := hl ▸ hi; omega
+      simp only [this, if_true]
   | map v offs mm ks vs =>
-    obtain ⟨v', offs', mm', ks', vs', rfl, hv, _, h1, _⟩ := reachEq_map h
-    simp only [isSome, getElem?_none_congr h1, validityIsSet_congr hv]
+    obtain ⟨v', offs', mm', ks', vs', rfl, hl, hv, _⟩ := touchEqW_map h
+    simp only [isSome]
+    by_cases hi : i < offs.length - 1
+    · have hi' : i < offs'.length - 1 := hl ▸ hi
+      have g : ¬ i + 1 ≥ offs.length := by omega
+      have g' : ¬ i + 1 ≥ offs'.length := by omega
+      simp only [g, g', if_false, validityIsSet_congr (hv rfl hi)]
+    · have hi' : ¬ i < offs'.length - 1 := hl ▸ hi
+      have g : i + 1 ≥ offs.length := by omega
+      have g' : i + 1 ≥ offs'.length := by omega
+      simp only [g, g', if_true]
   | dictionary ks vs =>
-    obtain ⟨ks', vs', rfl, hk, _⟩ := reachEq_dictionary h
-    have hkind := reachEq_kind hk
+    obtain ⟨ks', vs', rfl, hkind, _, hk, _⟩ := touchEqW_dictionary h
     cases ks with
-    | prim ty v vals => obtain ⟨v', vals', rfl, hv, hx⟩ := reachEq_prim hk; simp only [isSome, primGet_congr hv hx]
+    | prim ty v vals =>
+      obtain ⟨v', vals', rfl, hs⟩ := touchEqW_prim (hk ty v vals rfl); simp only [isSome, primGet_congr hs]
     | _ => cases ks' <;> simp [kind] at hkind <;> simp only [isSome]
   | union types offs fs =>
-    obtain ⟨types', offs', fs', rfl, hh, _, _⟩ := reachEq_union h
+    obtain ⟨types', offs', fs', rfl, hh, _, _⟩ := touchEqW_union h
     have ht : types[i]? = types'[i]? := by
       unfold unionHead at hh; simp only [Prod.mk.injEq] at hh; exact hh.1
     simp only [isSome, getElem?_none_congr ht]
 
-theorem primGet_some_getElem {v : Option Bits} {vals : List Int} {i : Nat} {k : Int}
-    (h : primGet Fixes.all v vals i = .ok (some k)) : vals[i]? = some k := by
+theorem rowEq_weaken {o : Bool} {i len len' : Nat} {v v' : Option Bits} {c : Bool}
+    (h : rowEq true i len len' v v' c = true) (hv : i < len → isValid v i = .ok true) : rowEq o i len len' v v' c = true := by
+  have hr := rowEq_elim h
+  unfold rowEq
+  simp only [Bool.and_eq_true]
+  refine ⟨by unfold rowEq at h; simp only [Bool.and_eq_true] at h; exact h.1, ?_⟩
+  by_cases hi : i < len
+  · have hc := hr.2.2 hi (fun _ => hv hi)
+    cases o with
+    | false => simp only [hi, if_true, Bool.false_eq_true, if_false, hc]
+    | true =>
+      simp only [hi, if_true, Bool.and_eq_true, bitEq, decide_eq_true_eq]
+      refine ⟨hr.2.1 rfl hi, ?_⟩
+      unfold whenValid
+      simp only [hv hi, hc]
+  · simp only [hi, if_false]
+
+theorem validityIsSet_true {v : Option Bits} {i : Nat} (h : validityIsSet Fixes.all v i = .ok true) : isValid v i = .ok true := by
+  rw [validityIsSet_all] at h; exact h
+
+/-- the `Option` layer: after `is_some` said yes, the relation holds without consulting the validity bit again -/
+theorem touchEqW_weaken {o : Bool} {p : Target} {a a' : Arr} {i : Nat} (h : touchEqW true p a a' i = true)
+    (hs : isSome Fixes.all a i = .ok true) : touchEqW o p a a' i = true := by
+  cases a with
+  | struct len v fs =>
+    obtain ⟨len', v', fs', rfl, _⟩ := touchEqW_struct h
+    unfold touchEqW at h ⊢
+    simp only at h ⊢
+    refine rowEq_weaken h (fun hi => ?_)
+    simp only [isSome] at hs
+    have : ¬ i ≥ len := by omega
+    simp only [this, if_false] at hs
+    exact validityIsSet_true hs
+  | list l v offs fm el =>
+    obtain ⟨l', v', offs', fm', el', rfl, _⟩ := touchEqW_list h
+    unfold touchEqW at h ⊢
+    simp only at h ⊢
+    refine rowEq_weaken h (fun hi => ?_)
+    simp only [isSome] at hs
+    have : ¬ i + 1 ≥ offs.length := by omega
+    simp only [this, if_false] at hs
+    exact validityIsSet_true hs
+  | fixedSizeList len v n fm el =>
+    obtain ⟨len', v', fm', el', rfl, _⟩ := touchEqW_fsl h
+    unfold touchEqW at h ⊢
+    simp only [Bool.and_eq_true] at h ⊢
+    refine ⟨h.1, rowEq_weaken h.2 (fun hi => ?_)⟩
+    simp only [isSome] at hs
+    have : ¬ i ≥ len := by omega
+    simp only [this, if_false] at hs
+    exact validityIsSet_true hs
+  | map v offs mm ks vs =>
+    obtain ⟨v', offs', mm', ks', vs', rfl, _⟩ := touchEqW_map h
+    unfold touchEqW at h ⊢
+    simp only at h ⊢
+    refine rowEq_weaken h (fun hi => ?_)
+    simp only [isSome] at hs
+    have : ¬ i + 1 ≥ offs.length := by omega
+    simp only [this, if_false] at hs
+    exact validityIsSet_true hs
+  | _ => unfold touchEqW at h ⊢; exact h
+
+/-- the `Option` layer of a target: `is_some` agrees, and where it says yes the views agree for the inner target -/
+theorem touchEq_option_elim {t : Target} {a a' : Arr} {i : Nat} (h : touchEq (.option t) a a' i = true) :
+    isSome Fixes.all a i = isSome Fixes.all a' i ∧ (isSome Fixes.all a i = .ok true → touchEq t a a' i = true) := by
+  rw [touchEq_option] at h
+  exact ⟨isSome_agree h, fun hs => touchEqW_weaken h hs⟩
+
+/-! ### scalar reads, dictionary lookups -/
+
+theorem primGet_some_valid {v : Option Bits} {vals : List Int} {i : Nat} {k : Int}
+    (h : primGet Fixes.all v vals i = .ok (some k)) : vals[i]? = some k ∧ isValid v i = .ok true := by
   unfold primGet at h
   split at h
   · cases h
   · rename_i x hx
-    obtain ⟨b, _, h⟩ := ok_bind_inv h
+    obtain ⟨b, hb, h⟩ := ok_bind_inv h
     cases b
     · cases h
     · simp only [if_true] at h
       cases h
-      exact hx
+      exact ⟨hx, validityIsSet_true hb⟩
 
 /-- `DictionaryDeserializer::get_str` -/
-theorem dictGetStr_agree {ks vs ks' vs' : Arr} {i : Nat} (h : reachEq (.dictionary ks vs) (.dictionary ks' vs') i = true) :
+theorem dictGetStr_agree {o : Bool} {p : Target} {ks vs ks' vs' : Arr} {i : Nat}
+    (h : touchEqW o p (.dictionary ks vs) (.dictionary ks' vs') i = true) :
     dictGetStr Fixes.all ks vs i = dictGetStr Fixes.all ks' vs' i := by
-  obtain ⟨ks2, vs2, he, hk, hkv, hvs⟩ := reachEq_dictionary h
+  obtain ⟨ks2, vs2, he, hkind, hkv, hk, hvs⟩ := touchEqW_dictionary h
   cases he
-  have hkind := reachEq_kind hk
   cases ks with
   | prim ty v vals =>
-    obtain ⟨v', vals', rfl, hv, hx⟩ := reachEq_prim hk
+    obtain ⟨v', vals', rfl, hsl⟩ := touchEqW_prim (hk ty v vals rfl)
     cases vs with
     | bytes vty vv voffs vdata =>
       cases vs' <;> simp [kind] at hkv
       rename_i vty' vv' voffs' vdata'
       unfold dictGetStr
-      simp only [primGet_congr hv hx]
+      simp only [primGet_congr hsl]
       cases hg : getRequired (primGet Fixes.all v' vals' i) with
       | error e => rfl
       | ok k =>
@@ -205,66 +499,68 @@ theorem dictGetStr_agree {ks vs ks' vs' : Arr} {i : Nat} (h : reachEq (.dictiona
         · rfl
         · unfold tryIntoUsize
           by_cases h0 : 0 ≤ k
-          · have hkey : vals[i]? = some k := by rw [hx]; exact primGet_some_getElem (getRequired_ok hg)
-            have hr := hvs ty v vals k rfl hkey h0
-            obtain ⟨vv2, voffs2, he2, hv2, h02, h12⟩ := reachEq_bytes hr
+          · have hg' : primGet Fixes.all v vals i = .ok (some k) := by rw [primGet_congr hsl]; exact getRequired_ok hg
+            obtain ⟨hkey, hval⟩ := primGet_some_valid hg'
+            have hr := hvs ty v vals vty vv voffs vdata k rfl rfl hval hkey h0
+            obtain ⟨vv2, voffs2, vdata2, he2, hs2⟩ := touchEqW_bytes hr
             cases he2
-            simp only [h0, if_true, bytesGet_congr hv2 h02 h12]
+            simp only [h0, if_true, bytesGet_congr hs2]
           · simp only [h0, if_false]; rfl
     | _ => cases vs' <;> simp [kind] at hkv <;> simp only [dictGetStr]
   | _ => cases ks' <;> simp [kind] at hkind <;> simp only [dictGetStr]
 
 /-- the scalar reads (`deserialize_bool`, `…_i32`, `…_str`, …) -/
-theorem scalar_agree (m : Method) {a a' : Arr} {i : Nat} (h : reachEq a a' i = true) :
+theorem scalar_agree (m : Method) {o : Bool} {p : Target} {a a' : Arr} {i : Nat} (h : touchEqW o p a a' i = true) :
     scalar Fixes.all m a i = scalar Fixes.all m a' i := by
   cases a with
-  | null len => obtain ⟨len', rfl, hl⟩ := reachEq_null h; unfold scalar; simp only [nullCheck_congr hl]
+  | null len => obtain ⟨len', rfl, hl⟩ := touchEqW_null h; unfold scalar; simp only [nullCheck_congr hl]
   | boolean len v vals =>
-    obtain ⟨len', v', vals', rfl, hl, hv, hb⟩ := reachEq_boolean h; unfold scalar; simp only [boolGet_congr hl hv hb]
+    obtain ⟨len', v', vals', rfl, hs⟩ := touchEqW_boolean h; unfold scalar; simp only [boolGet_congr hs]
   | prim ty v vals =>
-    obtain ⟨v', vals', rfl, hv, hx⟩ := reachEq_prim h; unfold scalar; simp only [primGet_congr hv hx, codecRead_congr hv hx]
+    obtain ⟨v', vals', rfl, hs⟩ := touchEqW_prim h; unfold scalar; simp only [primGet_congr hs, codecRead_congr hs]
   | time ty u v vals =>
-    obtain ⟨v', vals', rfl, hv, hx⟩ := reachEq_time h; unfold scalar; simp only [primGet_congr hv hx, codecRead_congr hv hx]
+    obtain ⟨v', vals', rfl, hs⟩ := touchEqW_time h; unfold scalar; simp only [primGet_congr hs, codecRead_congr hs]
   | timestamp u tz v vals =>
-    obtain ⟨v', vals', rfl, hv, hx⟩ := reachEq_timestamp h; unfold scalar; simp only [primGet_congr hv hx, codecRead_congr hv hx]
-  | decimal128 p s v vals =>
-    obtain ⟨v', vals', rfl, hv, hx⟩ := reachEq_decimal h; unfold scalar; simp only [codecRead_congr hv hx]
+    obtain ⟨v', vals', rfl, hs⟩ := touchEqW_timestamp h; unfold scalar; simp only [primGet_congr hs, codecRead_congr hs]
+  | decimal128 pr s v vals =>
+    obtain ⟨v', vals', rfl, hs⟩ := touchEqW_decimal h; unfold scalar; simp only [codecRead_congr hs]
   | bytes ty v offs data =>
-    obtain ⟨v', offs', rfl, hv, h0, h1⟩ := reachEq_bytes h; unfold scalar; simp only [bytesColGet_congr hv h0 h1]
+    obtain ⟨v', offs', data', rfl, hs⟩ := touchEqW_bytes h; unfold scalar; simp only [bytesColGet_congr hs]
   | bytesView ty v views buffers =>
-    obtain ⟨v', views', rfl, hv, hx⟩ := reachEq_bytesView h; unfold scalar; simp only [viewColGet_congr hv hx]
-  | fixedSizeBinary n v data => obtain ⟨v', rfl, hv⟩ := reachEq_fsb h; unfold scalar; simp only [fsbColGet_congr hv]
-  | struct len v fs => obtain ⟨_, _, _, rfl, _⟩ := reachEq_struct h; unfold scalar; rfl
-  | list l v offs fm el => obtain ⟨_, _, _, _, _, rfl, _⟩ := reachEq_list h; unfold scalar; rfl
-  | fixedSizeList len v n fm el => obtain ⟨_, _, _, _, rfl, _⟩ := reachEq_fsl h; unfold scalar; rfl
-  | map v offs mm ks vs => obtain ⟨_, _, _, _, _, rfl, _⟩ := reachEq_map h; unfold scalar; rfl
+    obtain ⟨v', views', buffers', rfl, hs⟩ := touchEqW_bytesView h; unfold scalar; simp only [viewColGet_congr hs]
+  | fixedSizeBinary n v data =>
+    obtain ⟨v', data', rfl, hs⟩ := touchEqW_fsb h; unfold scalar; simp only [fsbColGet_congr hs]
+  | struct len v fs => obtain ⟨_, _, _, rfl, _⟩ := touchEqW_struct h; unfold scalar; rfl
+  | list l v offs fm el => obtain ⟨_, _, _, _, _, rfl, _⟩ := touchEqW_list h; unfold scalar; rfl
+  | fixedSizeList len v n fm el => obtain ⟨_, _, _, _, rfl, _⟩ := touchEqW_fsl h; unfold scalar; rfl
+  | map v offs mm ks vs => obtain ⟨_, _, _, _, _, rfl, _⟩ := touchEqW_map h; unfold scalar; rfl
   | dictionary ks vs =>
-    obtain ⟨ks', vs', rfl, _⟩ := reachEq_dictionary h; unfold scalar; simp only [dictGetStr_agree h]
-  | union types offs fs => obtain ⟨_, _, _, rfl, _⟩ := reachEq_union h; unfold scalar; rfl
+    obtain ⟨ks', vs', rfl, _⟩ := touchEqW_dictionary h; unfold scalar; simp only [dictGetStr_agree h]
+  | union types offs fs => obtain ⟨_, _, _, rfl, _⟩ := touchEqW_union h; unfold scalar; rfl
 
 /-- binary columns read as a sequence of `u8` -/
-theorem binaryElems_agree {a a' : Arr} {i : Nat} (h : reachEq a a' i = true) :
+theorem binaryElems_agree {o : Bool} {p : Target} {a a' : Arr} {i : Nat} (h : touchEqW o p a a' i = true) :
     binaryElems Fixes.all a i = binaryElems Fixes.all a' i := by
-  have hkind := reachEq_kind h
+  have hkind := touchEqW_kind h
   cases a with
   | bytes ty v offs data =>
-    obtain ⟨v', offs', rfl, hv, h0, h1⟩ := reachEq_bytes h; simp only [binaryElems, bytesColGet_congr hv h0 h1]
+    obtain ⟨v', offs', data', rfl, hs⟩ := touchEqW_bytes h; simp only [binaryElems, bytesColGet_congr hs]
   | bytesView ty v views buffers =>
-    obtain ⟨v', views', rfl, hv, hx⟩ := reachEq_bytesView h; simp only [binaryElems, viewColGet_congr hv hx]
-  | fixedSizeBinary n v data => obtain ⟨v', rfl, hv⟩ := reachEq_fsb h; simp only [binaryElems, fsbColGet_congr hv]
+    obtain ⟨v', views', buffers', rfl, hs⟩ := touchEqW_bytesView h; simp only [binaryElems, viewColGet_congr hs]
+  | fixedSizeBinary n v data => obtain ⟨v', data', rfl, hs⟩ := touchEqW_fsb h; simp only [binaryElems, fsbColGet_congr hs]
   | _ => cases a' <;> simp [kind] at hkind <;> simp only [binaryElems]
 
 /-- string columns read as an enum -/
-theorem stringElem_agree {a a' : Arr} {i : Nat} (h : reachEq a a' i = true) :
+theorem stringElem_agree {o : Bool} {p : Target} {a a' : Arr} {i : Nat} (h : touchEqW o p a a' i = true) :
     stringElem Fixes.all a i = stringElem Fixes.all a' i := by
-  have hkind := reachEq_kind h
+  have hkind := touchEqW_kind h
   cases a with
   | bytes ty v offs data =>
-    obtain ⟨v', offs', rfl, hv, h0, h1⟩ := reachEq_bytes h; simp only [stringElem, bytesColGet_congr hv h0 h1]
+    obtain ⟨v', offs', data', rfl, hs⟩ := touchEqW_bytes h; simp only [stringElem, bytesColGet_congr hs]
   | bytesView ty v views buffers =>
-    obtain ⟨v', views', rfl, hv, hx⟩ := reachEq_bytesView h; simp only [stringElem, viewColGet_congr hv hx]
+    obtain ⟨v', views', buffers', rfl, hs⟩ := touchEqW_bytesView h; simp only [stringElem, viewColGet_congr hs]
   | dictionary ks vs =>
-    obtain ⟨ks', vs', rfl, _⟩ := reachEq_dictionary h; simp only [stringElem, dictGetStr_agree h]
+    obtain ⟨ks', vs', rfl, _⟩ := touchEqW_dictionary h; simp only [stringElem, dictGetStr_agree h]
   | _ => cases a' <;> simp [kind] at hkind <;> simp only [stringElem]
 
 end SaModel.Props.C17
